@@ -72,7 +72,8 @@ def one_project(bindir, r, jobs, with_recordlike, with_fragments=False):
     lines = {}
     for i, nm in enumerate(names):
         deps[nm] = r.sample(names[:i], min(i, r.choice([0, 1, 2])))
-        k = r.randint(1, 6)
+        # some scripts are silent: what their parent prints next must still be the parent's
+        k = 0 if r.random() < 0.3 else r.randint(1, 6)
         ls = []
         for q in range(k):
             base = "L-%s-%d" % (nm, q)
@@ -83,6 +84,16 @@ def one_project(bindir, r, jobs, with_recordlike, with_fragments=False):
             ls.append(base)
         lines[nm] = ls
     root = names[-1]
+    if not lines[root]:
+        lines[root] = ["L-%s-0" % root, "L-%s-1" % root]
+    for nm in names:
+        # a silent dependency requested last: the parent's next line follows its header directly
+        sil = [d for d in deps[nm] if not lines[d]]
+        if sil and lines[nm] and r.random() < 0.7:
+            d = r.choice(sil)
+            deps[nm] = [x for x in deps[nm] if x != d] + [d]
+            if len(lines[nm]) < 2:
+                lines[nm] = lines[nm] + ["L-%s-tail" % nm]
     for nm in names[:-1]:
         if not any(nm in deps[x] for x in names):
             deps[root].append(nm)
